@@ -934,6 +934,45 @@ func genPrefix(r *hx.Rand, kind string, live []string) []byte {
 	return k[:1+r.Intn(len(k))]
 }
 
+// batchGroup: one batch that writes the SAME key several times (put-then-delete, delete-then-put,
+// put-put, put-delete-put, delete-delete, put-delete-delete), on a key that is committed or not,
+// then commits and reads the key back in every way. A batch must be applied entirely and in order,
+// whatever the committed database held when the batched operation was recorded.
+func batchGroup(r *hx.Rand, ix string, k []byte, fresh bool) []jop {
+	kh := hexs(k)
+	bput := func() jop { return jop{Op: "bput", Ix: ix, K: kh, V: hexs(r.Bytes(1 + r.Intn(2)))} }
+	bdel := jop{Op: "bdelete", Ix: ix, K: kh}
+	var g []jop
+	if fresh {
+		g = append(g, jop{Op: "batchnew"})
+	}
+	switch r.Intn(6) {
+	case 0:
+		g = append(g, bput(), bdel)
+	case 1:
+		g = append(g, bdel, bput())
+	case 2:
+		g = append(g, bput(), bput())
+	case 3:
+		g = append(g, bput(), bdel, bput())
+	case 4:
+		g = append(g, bdel, bdel)
+	default:
+		g = append(g, bput(), bdel, bdel)
+	}
+	if r.Bool() {
+		g = append(g, jop{Op: "get", Ix: ix, K: kh}) // still the committed value: nothing is visible before commit
+	}
+	g = append(g, jop{Op: "bcommit"}, jop{Op: "get", Ix: ix, K: kh}, jop{Op: "has", Ix: ix, K: kh})
+	switch r.Intn(3) {
+	case 0:
+		g = append(g, jop{Op: "count", Ix: ix})
+	case 1:
+		g = append(g, jop{Op: "iter", Ix: ix, Rev: r.Bool()})
+	}
+	return g
+}
+
 func genHistory(r *hx.Rand, n int, withReopen bool) []jop {
 	var ops []jop
 	nIdx := 2 + r.Intn(3)
@@ -956,9 +995,24 @@ func genHistory(r *hx.Rand, n int, withReopen bool) []jop {
 		ops = append(ops, jop{Op: "put", Ix: ix, K: hexs(k), V: hexs(r.Bytes(r.Intn(3)))})
 	}
 	n += len(ops)
+	group := func() {
+		ix := indexNames[r.Intn(nIdx)]
+		k := genKey(r, kindOf(ix)) // mostly not stored
+		if l := live[ix]; len(l) > 0 && r.Bool() {
+			k = []byte(l[r.Intn(len(l))]) // mostly stored
+		}
+		live[ix] = append(live[ix], string(k))
+		ops = append(ops, batchGroup(r, ix, k, r.Chance(3, 4))...)
+	}
+	// every history holds at least one same-key batch
+	group()
 	for len(ops) < n {
 		ix := indexNames[r.Intn(nIdx)]
 		kind := kindOf(ix)
+		if r.Chance(1, 14) {
+			group()
+			continue
+		}
 		switch x := r.Intn(100); {
 		case x < 22:
 			k := genKey(r, kind)
@@ -1066,6 +1120,9 @@ func genHistory(r *hx.Rand, n int, withReopen bool) []jop {
 }
 
 func put(ix, k, v string) jop { return jop{Op: "put", Ix: ix, K: hexs([]byte(k)), V: hexs([]byte(v))} }
+func bp(ix, k, v string) jop  { return jop{Op: "bput", Ix: ix, K: hexs([]byte(k)), V: hexs([]byte(v))} }
+func bd(ix, k string) jop     { return jop{Op: "bdelete", Ix: ix, K: hexs([]byte(k))} }
+func gt(ix, k string) jop     { return jop{Op: "get", Ix: ix, K: hexs([]byte(k))} }
 
 // fixed histories run on every seed: the witnesses of the repaired defects and the corner cases
 func corpus() [][]jop {
@@ -1091,6 +1148,23 @@ func corpus() [][]jop {
 			jop{Op: "bput", Ix: "raw-a", K: hexs([]byte("q")), V: hexs([]byte("3"))}, jop{Op: "get", Ix: "raw-a", K: hexs([]byte("q"))}, jop{Op: "get", Ix: "raw-a", K: hexs([]byte("1"))}, jop{Op: "bcommit"},
 			jop{Op: "get", Ix: "raw-a", K: hexs([]byte("q"))}, jop{Op: "get", Ix: "raw-a", K: hexs([]byte("1"))}, jop{Op: "get", Ix: "raw-d", K: hexs([]byte("q"))},
 			jop{Op: "delete", Ix: "raw-a", K: hexs([]byte("q"))}, jop{Op: "bcommit"}, jop{Op: "get", Ix: "raw-a", K: hexs([]byte("q"))}),
+		// one batch writing the same key several times, keys committed ("1", "3") and not ("u", "w", "n", "m"):
+		// the batch is applied entirely and in order; nothing is visible before the commit
+		with(jop{Op: "batchnew"},
+			bp("raw-a", "u", "1"), bd("raw-a", "u"), // put-then-delete, key not stored
+			bd("raw-a", "3"), bp("raw-a", "3", "new"), // delete-then-put, key stored
+			bp("raw-a", "w", "1"), bp("raw-a", "w", "2"), // put-put
+			bp("raw-a", "1", "x"), bd("raw-a", "1"), // put-then-delete, key stored
+			bd("raw-a", "n"), bp("raw-a", "n", "v"), // delete-then-put, key not stored
+			bp("raw-a", "m", "1"), bd("raw-a", "m"), bp("raw-a", "m", "2"), // put-delete-put
+			bp("raw-d", "u", "other"), bd("raw-d", "z"), // the same key in another index; a stored key of that index
+			gt("raw-a", "u"), gt("raw-a", "3"), gt("raw-a", "1"), jop{Op: "count", Ix: "raw-a"},
+			jop{Op: "bcommit"},
+			gt("raw-a", "u"), jop{Op: "has", Ix: "raw-a", K: hexs([]byte("u"))}, gt("raw-a", "3"), gt("raw-a", "w"), gt("raw-a", "1"), gt("raw-a", "n"), gt("raw-a", "m"),
+			gt("raw-d", "u"), gt("raw-d", "z"), jop{Op: "count", Ix: "raw-a"}, jop{Op: "iter", Ix: "raw-a"}, jop{Op: "iter", Ix: "raw-a", Rev: true}, jop{Op: "count", Ix: "raw-d"},
+			// and once more in a second batch on the now committed keys
+			jop{Op: "batchnew"}, bp("raw-a", "u", "9"), bd("raw-a", "u"), bd("raw-a", "w"), bp("raw-a", "w", "3"), jop{Op: "bcommit"},
+			gt("raw-a", "u"), gt("raw-a", "w"), jop{Op: "iter", Ix: "raw-a"}),
 		// fields: wrap-around, floor at zero, batch reads the committed value, reopen
 		{ni("raw-a"), jop{Op: "fget", F: hexs([]byte("fa"))}, jop{Op: "fdec", F: hexs([]byte("fa"))}, jop{Op: "fput", F: hexs([]byte("fa")), N: ^uint64(0)}, jop{Op: "finc", F: hexs([]byte("fa"))},
 			jop{Op: "fincb", F: hexs([]byte("fa"))}, jop{Op: "fincb", F: hexs([]byte("fa"))}, jop{Op: "fget", F: hexs([]byte("fa"))}, jop{Op: "bcommit"}, jop{Op: "fget", F: hexs([]byte("fa"))},
@@ -1109,7 +1183,7 @@ func aliasCorpus() []jop {
 func main() {
 	shed.Register("leveldb", sldb.Driver{})
 	run := hx.Start("C19", "Aurora.C19.Corr",
-		"histories over 2-4 indexes with three key encodings (raw variable-length keys incl. empty / 0x00 / 0xff runs, 8-byte big-endian ids, 8-byte timestamp ++ address) mixing put/delete/get/has/hasMulti/fill/first/last/count/countFrom, iterate with every combination of prefix, present or absent start item, skip-start, reverse and stopping/failing callbacks, batched writes with commit / re-commit / discard, uint64 fields, vectors, string fields, and close+reopen on disk; non-trivial = some iteration visited at least two items; distinct by operation list")
+		"histories over 2-4 indexes with three key encodings (raw variable-length keys incl. empty / 0x00 / 0xff runs, 8-byte big-endian ids, 8-byte timestamp ++ address) mixing put/delete/get/has/hasMulti/fill/first/last/count/countFrom, iterate with every combination of prefix, present or absent start item, skip-start, reverse and stopping/failing callbacks, batched writes with commit / re-commit / discard, batches writing the same stored or unstored key several times (put-delete, delete-put, put-put, …), uint64 fields, vectors, string fields, and close+reopen on disk; non-trivial = some iteration visited at least two items; distinct by operation list")
 	r := run.R
 
 	if run.Replay != "" {
